@@ -49,7 +49,10 @@ pub(crate) fn fake_full_tx(
             Some(result)
         }
     };
-    let bootstraps = get_bootstraps(&tx_builder.inputs);
+    let mut bootstraps = get_bootstraps(&tx_builder.inputs);
+    // a collateral input at a Byron address is signed with a bootstrap witness too
+    let mut collateral_bootstraps = get_bootstraps(&tx_builder.collateral);
+    bootstraps.append(&mut collateral_bootstraps);
     let bootstrap_keys = match bootstraps.len() {
         0 => None,
         _x => {
